@@ -71,7 +71,7 @@ where judgeP (get : String → Option String) : Option String :=
 
 abbrev HCell := Cell SPred SOw Bytes Unit
 
-def parseSchema (toks : List String) : Option SI :=
+def parseSchema (toks : List String) (refineNilByCtor : Bool := true) : Option SI :=
   match toks with
   | cp :: rest =>
     let mods := rest.takeWhile (· ≠ ";")
@@ -80,7 +80,7 @@ def parseSchema (toks : List String) : Option SI :=
     | n :: ctoks =>
       match n.toNat?.bind (fun n => parseChecks n ctoks) with
       | some (cs, []) =>
-        let base : SI := { checks := cs, ptrSchema := cp == "1", ctorPtr := cp == "1", isRefine := isRefineP }
+        let base : SI := { checks := cs, ptrSchema := cp == "1", ctorPtr := refineNilByCtor && cp == "1", isRefine := isRefineP }
         mods.foldlM applyMod base
       | _ => none
     | _ => none
@@ -92,7 +92,7 @@ def parseEP : String → Option EP
   | _ => none
 
 /-- One hop of the harness, turned into a `Prim.Op` against the current heap and executed by `Prim.step`. -/
-def hopStep (ck : CloneKind) (inB : Bytes) (h : List HCell) (tok : String) : Option (List HCell) :=
+def hopStep (ck : CloneKind) (byCtor : Bool) (inB : Bytes) (h : List HCell) (tok : String) : Option (List HCell) :=
   match tok.splitOn ":" with
   | ["run", ep, j, w] => do
     let ep ← parseEP ep
@@ -119,7 +119,7 @@ def hopStep (ck : CloneKind) (inB : Bytes) (h : List HCell) (tok : String) : Opt
   | ["fresh", j] => do
     let j ← j.toNat?
     let c ← h[j]?
-    pure (step pinned Str.env h (.mk { ptrSchema := c.cfg.ptrSchema, ctorPtr := c.cfg.ptrSchema, isRefine := isRefineP })).1
+    pure (step pinned Str.env h (.mk { ptrSchema := c.cfg.ptrSchema, ctorPtr := byCtor && c.cfg.ptrSchema, isRefine := isRefineP })).1
   | _ => none
 
 def parseInput (inTok : String) : Option (Input Bytes) :=
@@ -147,11 +147,14 @@ def observe (i : SI) (x : Input Bytes) (mpa : Bool := true) : String :=
   let ma := if mpa then p else "n/a"
   s!"P={p};S={s};A={p};MP={p};MS={s};MA={ma}"
 
-def handleHistStr (ck : CloneKind) (goType : String) (body input : String) : Option String := do
+/-- `byCtor`: a refinement lets nil pass when the checks were attached to the pointer constructor (strings); for integers
+    (`false`) it never does: `ZodIntegerTyped.Refine` asks the receiver's `IsNilable()` at attachment, and the recipes attach
+    the checks to the bare constructor. -/
+def handleHistStr (ck : CloneKind) (goType : String) (body input : String) (byCtor : Bool := true) : Option String := do
   match body.splitOn " // " with
   | [a, b, hops, tail] =>
-    let ca ← parseSchema ((a.splitOn " ").filter (· ≠ ""))
-    let cb ← parseSchema ((b.splitOn " ").filter (· ≠ ""))
+    let ca ← parseSchema ((a.splitOn " ").filter (· ≠ "")) byCtor
+    let cb ← parseSchema ((b.splitOn " ").filter (· ≠ "")) byCtor
     let (t, inB) ← match (tail.splitOn " ").filter (· ≠ "") with
       | [t, i] => do
         let t ← (t.drop 2).toString.toNat?
@@ -159,7 +162,7 @@ def handleHistStr (ck : CloneKind) (goType : String) (body input : String) : Opt
         pure (t, i)
       | _ => none
     let h0 : List HCell := (step pinned Str.env (step pinned Str.env [] (.mk ca)).1 (.mk cb)).1
-    let h ← ((hops.splitOn " ").filter (· ≠ "")).foldlM (hopStep ck inB) h0
+    let h ← ((hops.splitOn " ").filter (· ≠ "")).foldlM (hopStep ck byCtor inB) h0
     let c ← h[t]?
     let x ← parseInput input.trimAscii.toString
     pure (observe c.cfg x (hasMustParseAny goType) ++ ";H=ok")
@@ -169,7 +172,9 @@ def handleHistStr (ck : CloneKind) (goType : String) (body input : String) : Opt
 def tableReport : String :=
   let off := EntryPoints.tableOffenders Gen.EntryPoints.table ++
     (EntryPoints.wrapperOffenders Gen.EntryPoints.table).map (· ++ " is not the plain wrapper") ++
-    (EntryPoints.uncovered Gen.EntryPoints.table).map (· ++ " has no agreement theorem and no disposition")
+    (EntryPoints.uncovered Gen.EntryPoints.table).map (· ++ " has no agreement theorem and no disposition") ++
+    EntryPoints.baseOffenders Gen.EntryPoints.table ++
+    EntryPoints.transcriptionOffenders Gen.EntryPoints.table Gen.EntryPoints.stmts
   if off.isEmpty then "table-ok" else " ; ".intercalate off
 
 def handleLine (line : String) : String :=
@@ -195,7 +200,7 @@ def handleLine (line : String) : String :=
       | none => "bad-op"
     -- integers in unary ("x"*n): `CloneFrom` keeps the receiver's checks (types/integer.go:597-605)
     | "c09" :: "hist" :: "int" :: _ =>
-      match handleHistStr .keepChecks "ZodIntegerTyped" (schema.drop "c09 hist int ".length).toString input with
+      match handleHistStr .keepChecks "ZodIntegerTyped" (schema.drop "c09 hist int ".length).toString input false with
       | some m => m ++ "\t" ++ spec
       | none => "bad-op"
     | "c09" :: "str" :: cp :: rest =>
